@@ -458,7 +458,7 @@ func checkNew(r *mon.Report, s *common.Scenario, res provscheduling.Results, ori
 		launchable := 0
 		for _, it := range nc.InstanceTypeOptions {
 			r.Inc("launch_options_checked")
-			ok, why := optionFeasible(r, nc, it, placed, daemons)
+			ok, why, collapsedExplains := optionFeasible(r, nc, it, placed, daemons, nc.Pods, respects(s))
 			if !ok && why == noOffering {
 				// no available offering of this type is admitted by the final requirements (e.g. after the claim
 				// was pinned to reserved capacity): the type cannot be launched, the guarantee is vacuous for it
@@ -467,7 +467,11 @@ func checkNew(r *mon.Report, s *common.Scenario, res provscheduling.Results, ori
 			}
 			launchable++
 			if !ok {
-				r.Violate(violKey("new-claim-option-infeasible", why, nc.Pods, respects(s)), fmt.Sprintf("NodeClaim (pool %s) keeps instance type %s although no available compatible offering admits its %d pods: %s", nc.NodePoolName, it.Name, len(placed), why), cs,
+				key := violKey("new-claim-option-infeasible", why, nc.Pods, respects(s))
+				if collapsedExplains {
+					key = "unsat-conjunction-treated-as-DoesNotExist"
+				}
+				r.Violate(key, fmt.Sprintf("NodeClaim (pool %s) keeps instance type %s although no available compatible offering admits its %d pods: %s", nc.NodePoolName, it.Name, len(placed), why), cs,
 					map[string]any{"requirements": nc.Requirements.String(), "instanceType": it.Name, "pods": podSummaries(placed), "requests": nc.Spec.Resources.Requests})
 				break
 			}
@@ -483,8 +487,14 @@ const noOffering = "no available offering is admitted by the NodeClaim requireme
 
 // optionFeasible: exists an available offering compatible with the claim's final requirements such that on every
 // concrete node that launch can produce all pods are admissible.
-func optionFeasible(r *mon.Report, nc *provscheduling.NodeClaim, it *cloudprovider.InstanceType, placed, daemons []*corev1.Pod) (bool, string) {
+//
+// collapsedExplains (classification only): some offering the claim's requirements admit is refused solely because of
+// the node affinity of a pod whose effective constraint on a key is unsatisfiable — Karpenter represents that pod as
+// DoesNotExist on the key and therefore believes the offering serves it (the recorded finding), whatever the other
+// offerings are refused for.
+func optionFeasible(r *mon.Report, nc *provscheduling.NodeClaim, it *cloudprovider.InstanceType, placed, daemons, copies []*corev1.Pod, respect bool) (bool, string, bool) {
 	lastWhy := noOffering
+	collapsedExplains := false
 	for _, g := range it.AllocatableOfferingsList() {
 		for _, of := range g.Offerings {
 			if !of.Available {
@@ -576,15 +586,35 @@ func optionFeasible(r *mon.Report, nc *provscheduling.NodeClaim, it *cloudprovid
 				if !ar.OK {
 					okAll = false
 					why = fmt.Sprintf("offering %s/%s labels=%v: %s", of.Zone(), of.CapacityType(), lbls, ar.Why)
+					if strings.Contains(ar.Why, "affinity") {
+						var rest []*corev1.Pod
+						stripped := false
+						for i, p := range placed {
+							if i < len(copies) && strings.Contains(ar.Why, "pod "+p.Name+":") && len(oracle.CollapsedKeys(copies[i], respect)) > 0 {
+								q := p.DeepCopy()
+								q.Spec.NodeSelector = nil
+								if q.Spec.Affinity != nil {
+									q.Spec.Affinity.NodeAffinity = nil
+								}
+								rest = append(rest, q)
+								stripped = true
+							} else {
+								rest = append(rest, p)
+							}
+						}
+						if stripped && oracle.AdmitAll(cn, rest, others).OK {
+							collapsedExplains = true
+						}
+					}
 				}
 			}
 			if okAll {
-				return true, ""
+				return true, "", false
 			}
 			lastWhy = why
 		}
 	}
-	return false, lastWhy
+	return false, lastWhy, collapsedExplains
 }
 
 func init() {
